@@ -3,7 +3,7 @@ def _c12(id, harness, params=None, tier="quick"):
     return spec("C12/" + id, harness, params, tier=tier)
 
 PROPS["C12"] = {
-    "bounds": "byte streams of 0..4 symbolic bytes (thorough 0..6) through Plain.Handle with the real bufio.Scanner; reader stub = io.Reader contract with a solver-chosen count 0..min(len(p),remaining) per Read (every cut position, one-byte reads), last bytes optionally returned together with the terminating error, terminating error io.EOF or a timeout error, 0..1 zero-length reads (thorough up to 3); the TCP path as acceptTcpConn drives it (HandleConn + TimeoutConn over a stub net.Conn, read timeout off/on, SetReadDeadline may fail) for streams of 0..3 bytes; 1..2 UDP datagrams through handleData sharing one receive buffer, 0..4 bytes in total (thorough 6); 1..2 AMQP deliveries through the real consumeAMQP loop (bufio.Reader.ReadLine), 0..4 bytes in total (thorough 6); streams of 0..6 bytes delivered in at most 3 segments with both cut positions arbitrary (thorough); concrete-length boundary runs: a 65535-byte line (TCP, 8 cut positions; also mid-size lines of 4096, 4097 and 12289 bytes with 7 cut positions around the scanner buffer sizes; UDP unterminated and a 65532-byte line plus a second line) and a 4095-byte line (AMQP) are dispatched whole",
+    "bounds": "byte streams of 0..4 symbolic bytes (thorough 0..6) through Plain.Handle with the real bufio.Scanner; reader stub = io.Reader contract with a solver-chosen count 0..min(len(p),remaining) per Read (every cut position, one-byte reads), last bytes optionally returned together with the terminating error, terminating error io.EOF or a timeout error, 0..1 zero-length reads (thorough up to 3); the TCP path as acceptTcpConn drives it (HandleConn + TimeoutConn over a stub net.Conn, read timeout off/on, SetReadDeadline may fail) for streams of 0..3 bytes; 1..2 UDP datagrams through handleData sharing one receive buffer, 0..4 bytes in total (thorough 6); 1..2 AMQP deliveries through the real consumeAMQP loop (bufio.Reader.ReadLine), 0..4 bytes in total (thorough 6); streams of 0..6 bytes delivered in at most 3 segments with both cut positions arbitrary (thorough); two streams on one Plain handler (as the listener runs it): stream A of 3..5 bytes stalls after any cut, stream B of 2..4 bytes comes and goes meanwhile, A resumes (disjoint alphabets, otherwise free bytes); concrete-length boundary runs: a 65535-byte line (TCP, 8 cut positions; also mid-size lines of 4096, 4097 and 12289 bytes with 7 cut positions around the scanner buffer sizes; UDP unterminated and a 65532-byte line plus a second line) and a 4095-byte line (AMQP) are dispatched whole",
     "outside": "streams longer than the bound other than the boundary runs (the Scanner's buffer growth/compaction path is only exercised by the concrete boundary runs); lines longer than the limits (Scanner returns ErrTooLong and the connection ends; ReadLine hands over-long AMQP lines on in 4096-byte fragments - documented as unsupported in amqp.go); the kernel sockets, AcceptTCP/ReadFrom and the amqp client library; what Table.Dispatch does with a line; slices handed to Dispatch are only required to be valid during the call (input.Dispatcher contract: implementations must not reuse buf after returning) - the AMQP path overwrites them on the next ReadLine",
     "assumptions": [
         "io.Reader contract for the connection: 0 <= n <= len(p); once an error was returned the stream is over",
@@ -17,6 +17,7 @@ PROPS["C12"] = {
         {"pkg": "input", "hdir": "input", "specs": [
             _c12("tcp/conn/L<=3", "VerifC12Conn", {"L": "3", "zeros": "0"}),
             _c12("tcp/conn/stalled-sender/L<=4", "VerifC12StalledSender", {"L": "4"}),
+            _c12("tcp/two-streams-one-handler", "VerifC12TwoStreams"),
         ]},
         {"pkg": "input", "hdir": "input", "specs": [
             _c12("tcp/plain/L<=4", "VerifC12Plain", {"L": "4", "zeros": "0"}),
